@@ -2,7 +2,10 @@ package checks
 
 import (
 	"fmt"
+	"os"
 	"runtime/debug"
+	"sort"
+	"strings"
 
 	corev1 "k8s.io/api/core/v1"
 
@@ -27,6 +30,11 @@ var c17Pools = []poolCfg{
 	}},
 	{"w10:zone-a | w0:open", func() []*v1.NodePool {
 		return []*v1.NodePool{world.NodePool("za", weight(10), reqsMod(oracle.R(corev1.LabelTopologyZone, corev1.NodeSelectorOpIn, "a"))), world.NodePool("open")}
+	}},
+	// the heavier pool can use the reservations, the lighter one is on-demand only: a pod that is compatible with exhausted
+	// reserved capacity of the heavier pool must be deferred, not placed on the lighter pool
+	{"w10:open | w0:on-demand-only", func() []*v1.NodePool {
+		return []*v1.NodePool{world.NodePool("first", weight(10)), world.NodePool("fallback", reqsMod(oracle.R(v1.CapacityTypeLabelKey, corev1.NodeSelectorOpIn, "on-demand")))}
 	}},
 	{"w10:only-l | w0:only-m", func() []*v1.NodePool {
 		return []*v1.NodePool{world.NodePool("pl", weight(10), reqsMod(oracle.R(corev1.LabelInstanceTypeStable, corev1.NodeSelectorOpIn, "l"))), world.NodePool("pm", reqsMod(oracle.R(corev1.LabelInstanceTypeStable, corev1.NodeSelectorOpIn, "m")))}
@@ -144,8 +152,8 @@ func init() {
 		}
 		bl := batches(len(c17Shapes), bsz)
 		pols := []options.PreferencePolicy{options.PreferencePolicyRespect, options.PreferencePolicyIgnore}
-		r.Rule = fmt.Sprintf("reservation part: catalogs %v with reserved offerings (ids shared across instance types and NodePools, differing advertised capacities, one exhausted) x %d NodePool sets x all pod batches of <=%d from %d shapes x 2 preference policies, feature gate on, provisioning (strict) mode, candidate-evaluation orders with 2 workers and <=1 deviation; "+
-			"oracle on the created NodeClaims: holders per reservation id <= min advertised capacity; a holder admits only reserved launches with exactly its ids; a non-holder admits no reserved launch; no panic from the manager's guards. "+
+		r.Rule = fmt.Sprintf("reservation part: catalogs %v with reserved offerings (ids shared across instance types and NodePools, differing advertised capacities, one exhausted) x %d NodePool sets x all pod batches of <=%d from %d shapes x 2 preference policies, feature gate on, provisioning (strict) mode, candidate-evaluation orders with 2 workers and <=2 deviations (enough for a later template to complete before an earlier one); "+
+			"oracle on the created NodeClaims: holders per reservation id <= min advertised capacity; a holder admits only reserved launches with exactly its ids; a non-holder admits no reserved launch; the set of pods deferred for exhausted reserved capacity is the same under every completion order; no panic from the manager's guards. "+
 			"non-trivial = distinct (case, outcome) with at least one NodeClaim holding a reservation or a deferred pod", cats, len(c17Pools), bsz, len(c17Shapes))
 		r.Assumptions = []string{"fallback mode (used by disruption simulations only) is exercised through C06/C18 worlds, not here"}
 		savedP, savedS, savedC := poolCfgs, podShapes, catalogs
@@ -155,7 +163,10 @@ func init() {
 		enum.Run(r, n, func(idx int64, l *ev.Local) {
 			d := enum.Odo(idx, len(bl), len(cats), len(c17Pools), len(pols))
 			c := SchedCase{Batch: bl[d[0]], Catalog: cats[d[1]], Pool: d[2], Nodes: 0, Pref: pols[d[3]], MinV: options.MinValuesPolicyStrict, Workers: 2, Reserved: true}
-			ex := &explore.Explorer{Bound: 1, MaxExecs: 300}
+			// two deviations: a LATER template completing before an EARLIER one needs "pull the next piece first" and then
+			// "complete the later piece first"
+			ex := &explore.Explorer{Bound: 2, MaxExecs: 2000}
+			var baseDeferred *string // pods deferred with a reserved-offering error under the default (in-order) completion
 			ex.Exec = func(run *explore.Run) {
 				defer func() {
 					if p := recover(); p != nil {
@@ -174,10 +185,22 @@ func init() {
 				pv, _ := env.judgePlacements(out)
 				viol = append(viol, pv...)
 				deferred := 0
-				for _, e := range out.Results.PodErrors {
+				var deferredNames []string
+				for p, e := range out.Results.PodErrors {
 					if scheduling.IsReservedOfferingError(e) {
 						deferred++
+						deferredNames = append(deferredNames, p.Name)
 					}
+				}
+				sort.Strings(deferredNames)
+				dn := strings.Join(deferredNames, ",")
+				if only := os.Getenv("C17_ONLY"); only != "" && strings.Contains(c.String(), only) {
+					fmt.Printf("C17 %s\n   choices=%v deferred=[%s] => %s\n", c.String(), run.Choices(), dn, out.Digest)
+				}
+				if baseDeferred == nil {
+					baseDeferred = &dn
+				} else if dn != *baseDeferred {
+					viol = append(viol, c01Violation{"reservation: strict-mode deferral depends on the completion order of the template evaluation", fmt.Sprintf("with templates completing in order the pods deferred for exhausted reserved capacity are [%s]; under completion order %v they are [%s] (a deferred pod was silently placed elsewhere, or vice versa)", *baseDeferred, run.Choices(), dn)})
 				}
 				if holders > 0 || deferred > 0 {
 					l.NontrivialH(ev.H(fmt.Sprintf("%d/%s", idx, out.Digest)))
